@@ -233,6 +233,9 @@ def rule_r1(chk):
         return None
 
     n_rules = 0
+    from .. import renames as _rn
+    _tab = (_rn.table() or {}).get("irispie.aldi.differentiators")
+    _ref_atom_methods = {k.split(".", 1)[1] for k in _tab if k.startswith("Atom.")} if _tab else None
     for name, f in sorted(meths.items()):
         if not _is_rule_method(f):
             continue
@@ -241,6 +244,11 @@ def rule_r1(chk):
         real = aliases.get(name, name)
         ps = params(f)
         helper = name.startswith("_") and not name.startswith("__")
+        if helper and _ref_atom_methods is not None and name not in _ref_atom_methods:
+            # a private helper the rules were not written against (extracted since): its contract (what its parameters stand for)
+            # is not known, so it is not an obligation of its own - it is interpreted where the rule methods call it
+            chk.note(f"Atom.{name}: private helper not in the reference tree; interpreted through its callers only")
+            continue
         if not helper and not name.startswith("__") and name not in table_heads:
             # unreachable from model equations: the function table is the only route to a named method
             chk.note(f"Atom.{name}: rule method not reachable from the function table; not an obligation (dead code)")
@@ -325,9 +333,16 @@ def rule_r2(chk):
              "(covered by R1) or cannot silently accept an Atom (Atom defines none of the numeric-protocol "
              "dunders a numpy fallback would use); the generated wrapper dispatches on hasattr(x, name)", floor=6)
     tab = m.assign("_ELEMENTWISE_FUNCTIONS")
-    if not isinstance(tab, ast.Dict):
-        raise AnalysisError("_ELEMENTWISE_FUNCTIONS is not a dict literal")
-    names = [literal(k) for k in tab.keys]
+    from .. import fin as _fin3
+    val = _fin3.module_table(m, "_ELEMENTWISE_FUNCTIONS")
+    if isinstance(tab, ast.Dict):
+        names = [literal(k) for k in tab.keys]
+    elif isinstance(val, dict) and val:
+        names = list(val)
+    elif isinstance(tab, ast.Call) and dotted(tab.func) == "dict" and tab.keywords and not tab.args:
+        names = [k.arg for k in tab.keywords]
+    else:
+        raise AnalysisError("_ELEMENTWISE_FUNCTIONS is not a table built from constants")
     _, meths, _ = _atom_methods(d)
     chk.saw(m, "_ELEMENTWISE_FUNCTIONS")
     silent = [x for x in _SILENT_DUNDERS if x in meths]
@@ -599,16 +614,32 @@ def rule_r4(chk):
     # total derivative: sum over range(len(args)); skip only non-atoms
     f = m.func("_calculate_finite_derivatives")
     chk.saw(m, "_calculate_finite_derivatives")
-    src = norm_stmt(f)
-    sums = [n for n in ast.walk(f) if isinstance(n, ast.Call) and dotted(n.func) == "sum"]
-    ok = False
-    if len(sums) == 1 and isinstance(sums[0].args[0], ast.GeneratorExp):
-        g = sums[0].args[0]
-        it = g.generators[0].iter
-        ok = (unparse(it).replace(" ", "") in ("range(len(args))", "range(len(args,),)") and not g.generators[0].ifs
-              and isinstance(g.elt, ast.Call) and dotted(g.elt.func) == "_partial_times_inner")
-    chk.ob("C02-R4", "finite_differentiators._calculate_finite_derivatives[sum over all args]", ok,
-           "new_diff = sum(_partial_times_inner(...k...) for k in range(len(args)))" if ok else "sum over arguments not recognised", m.loc(f))
+    from .. import fin as _fin2
+
+    class _Sum(_fin2.FinObj):
+        def __init__(self, ks=()):
+            super().__init__(ks=tuple(ks))
+        def __add__(self, o):
+            return _Sum(self.ks + o.ks) if isinstance(o, _Sum) else self if o == 0 else NotImplemented
+        __radd__ = __add__
+    bad, n_ev = None, 0
+    try:
+        for nargs in (0, 1, 2, 4):
+            seen_args = []
+            funcs_ = {"_collect_arg_values": lambda *a_: ("VALUES", len(a_)), "_collect_arg_diffs": lambda *a_: ("DIFFS", len(a_)),
+                      "_partial_times_inner": lambda fn, k_, v_, d_: seen_args.append((fn, v_, d_)) or _Sum([k_]),
+                      "ad_.Atom.no_context": lambda v_, d_, *r_: ("atom", v_, d_) + r_, "func": lambda *v_: ("f",) + v_}
+            out = _fin2.run_function(f, {params(f)[0]: funcs_["func"], (f.args.vararg.arg if f.args.vararg else "args"): tuple(f"a{i}" for i in range(nargs))}, funcs_)
+            n_ev += 1
+            ks = sorted(out[2].ks) if isinstance(out[2], _Sum) else ([] if out[2] == 0 else None)
+            if ks != list(range(nargs)) or any(a_[1:] != (("VALUES", nargs), ("DIFFS", nargs)) for a_ in seen_args):
+                bad = f"with {nargs} arguments the total derivative sums the partial terms of positions {ks} (each with the collected values and inner derivatives); expected every position 0..{nargs - 1} once"
+                break
+    except (_fin2.NotFinite, _fin2.Raised, TypeError, IndexError, AttributeError) as ex:
+        chk.undecided("C02-R4", "finite_differentiators._calculate_finite_derivatives[sum over all args]", f"not finitely evaluable: {type(ex).__name__}: {ex}", m.loc(f))
+    else:
+        chk.ob("C02-R4", "finite_differentiators._calculate_finite_derivatives[sum over all args]", bad is None,
+               bad or f"new_diff = sum of _partial_times_inner over every argument position ({n_ev} arities)", m.loc(f), sure=True)
     f = m.func("_partial_times_inner")
     chk.saw(m, "_partial_times_inner")
     rets = [n for n in walk_no_nested(f) if isinstance(n, ast.Return)]
@@ -907,6 +938,29 @@ def rule_r6(chk, rid="C02-R6", sites=(1, 2)):
     def conv_with(symbols):
         return alg.ToIR(attr=lambda d: sym(symbols[d]) if d in symbols else None, env={k: sym(v) for k, v in symbols.items() if "." not in k})
 
+    def with_aliases(symbols, funcs):
+        """a local that is stored into (or read from) an attribute with a symbol stands for the same quantity: self._min_shift = min_shift"""
+        out = dict(symbols)
+        for g_ in funcs:
+            for n_ in ast.walk(g_):
+                if isinstance(n_, ast.Assign) and len(n_.targets) == 1:
+                    t_, v_ = n_.targets[0], n_.value
+                    pairs = list(zip(t_.elts, v_.elts)) if isinstance(t_, ast.Tuple) and isinstance(v_, ast.Tuple) and len(t_.elts) == len(v_.elts) else [(t_, v_)]
+                    for a_, b_ in pairs:
+                        for x_, y_ in ((a_, b_), (b_, a_)):
+                            if isinstance(x_, ast.Name) and dotted(y_) in symbols and x_.id not in out:
+                                out[x_.id] = symbols[dotted(y_)]
+        return out
+
+    def first_of_loop(g_, e_):
+        """an offset that is the variable of a loop / comprehension over a literal tuple stands for its first element"""
+        if isinstance(e_, ast.Name):
+            for n_ in ast.walk(g_):
+                tg, it = (n_.target, n_.iter) if isinstance(n_, (ast.For, ast.comprehension)) else (None, None)
+                if isinstance(tg, ast.Name) and tg.id == e_.id and isinstance(it, (ast.Tuple, ast.List)) and it.elts:
+                    return it.elts[0]
+        return e_
+
     def decide(construct, s_expr, o_expr, want, symbols, loc):
         try:
             cv = conv_with(symbols)
@@ -960,7 +1014,7 @@ def rule_r6(chk, rid="C02-R6", sites=(1, 2)):
         pass
     elif len(cr) == 1 and len(rets) == 1:
         decide("steadiers.evaluators.SteadyEvaluator[steady array]", kw_of(cr[0], "shift_in_first_column"), rets[0], 0,
-               {"self._min_shift": "m", "self._column_offset": "OFFSET"}, em.loc(cr[0]))
+               with_aliases({"self._min_shift": "m", "self._column_offset": "OFFSET"}, [ini, off]), em.loc(cr[0]))
         uses = [c for q, g in em.functions() if q.startswith("SteadyEvaluator.") for c in ast.walk(g) if isinstance(c, ast.Call) and isinstance(c.func, ast.Attribute)
                 and c.func.attr == "eval" and len(c.args) >= 2 and squash(c.args[0]) == "self._steady_array"]
         okk = bool(uses) and all(squash(c.args[1]) == "self._column_offset" for c in uses)
@@ -983,8 +1037,8 @@ def rule_r6(chk, rid="C02-R6", sites=(1, 2)):
                 if not evals:
                     chk.undecided(rid, f"{modname.replace('irispie.', '')}.{q}[steady array]", "no evaluation call at an offset recognised", m2.loc(c))
                     continue
-                o_expr = inline_locals(g, evals[0].args[1], skip_calls=True)
-                symbols = {"equator.min_shift": "m", "self._min_shift": "m"}
+                o_expr = inline_locals(g, first_of_loop(g, evals[0].args[1]), skip_calls=True)
+                symbols = with_aliases({"equator.min_shift": "m", "self._min_shift": "m"}, [g])
                 decide(f"{modname.replace('irispie.', '')}.{q}[steady array]", s_expr, o_expr, 0, symbols, m2.loc(c))
 
 
